@@ -918,6 +918,25 @@ def check_range_rejections(ctx, rule, P, fn_key, params, valid, grid, describe):
     return n
 
 
+def _range_contains(t):
+    """(lo, hi, hi_inclusive, item) of `(lo..hi).contains(&item)` in any of the std range forms, else None."""
+    t = B.peel(t)
+    if not (t.op == "call" and len(t.a[1]) == 2):
+        return None
+    m = B.cname(t)
+    if not m.endswith("::contains") or not m.startswith(("Range", "ops::Range", "RangeBounds", "ops::RangeBounds")):
+        return None
+    r, item = B.peel(t.a[1][0]), B.peel(t.a[1][1])
+    if r.op == "agg" and r.a[0][0] == "adt":
+        kind, fields = r.a[0][1], dict(zip(r.a[0][3], r.a[1]))
+        if kind in ("Range", "RangeFrom", "RangeTo", "RangeToInclusive"):
+            return (fields.get("start"), fields.get("end"), kind == "RangeToInclusive", item)
+        return None
+    if r.op == "call" and B.cname(r).endswith("RangeInclusive::<Idx>::new") and len(r.a[1]) == 2:
+        return (r.a[1][0], r.a[1][1], True, item)
+    return None
+
+
 def check_len_rejections(ctx, rule, P, fn_key, list_param, valid_len, lengths, describe):
     """Own rejections by the NUMBER of list elements: every Err exit of fn (spliced helpers included) whose path condition
     consists of comparisons between `len(list_param)` and constants is evaluated for each length of `lengths`; no
@@ -933,6 +952,23 @@ def check_len_rejections(ctx, rule, P, fn_key, list_param, valid_len, lengths, d
         lits = G.path_literals(ev, b, P, checks_only=True)
         cmps = []
         for a, pol in lits:
+            rc = _range_contains(a[2]) if (a[0] == "atom" and a[1] == "term") else None
+            if rc is not None and R._is_len_of(rc[3], list_param):
+                lo, hi, incl, item = rc
+                if any(x is not None and any(y.op in ("param", "call", "mutcall", "loop", "phi") for y in subterms(x)) for x in (lo, hi)):
+                    continue
+
+                def holds_rc(L, lo=lo, hi=hi, incl=incl):
+                    if lo is not None and not (eval_int(lo, {})[0] <= L):
+                        return False
+                    if hi is not None:
+                        h = eval_int(hi, {})[0]
+                        if not (L <= h if incl else L < h):
+                            return False
+                    return True
+
+                cmps.append((holds_rc, pol, "len in %s..%s%s" % (show(lo, 3) if lo is not None else "", "=" if incl else "", show(hi, 3) if hi is not None else "")))
+                continue
             if not (a[0] == "atom" and a[1] == "cmp"):
                 continue
             sides = (a[3], a[4])
@@ -942,27 +978,26 @@ def check_len_rejections(ctx, rule, P, fn_key, list_param, valid_len, lengths, d
             other = sides[1] if lens[0] is sides[0] else sides[0]
             if any(x.op in ("param", "call", "mutcall", "loop", "phi") for x in subterms(other)):
                 continue
-            cmps.append((a, pol, lens[0]))
+
+            def holds_cmp(L, a=a, lt=lens[0]):
+                env = {lt: (L, 64, False)}
+                x, y = eval_int(a[3], env)[0], eval_int(a[4], env)[0]
+                return {"Lt": x < y, "Le": x <= y, "Gt": x > y, "Ge": x >= y, "Eq": x == y, "Ne": x != y}[a[2]]
+
+            cmps.append((holds_cmp, pol, "%s %s %s" % (show(a[3], 3), a[2], show(a[4], 3))))
         if not cmps:
             continue
         n += 1
         bad = None
         for L in lengths:
             try:
-                holds = True
-                for a, pol, lt in cmps:
-                    env = {lt: (L, 64, False)}
-                    x, y = eval_int(a[3], env)[0], eval_int(a[4], env)[0]
-                    r = {"Lt": x < y, "Le": x <= y, "Gt": x > y, "Ge": x >= y, "Eq": x == y, "Ne": x != y}[a[2]]
-                    if r != pol:
-                        holds = False
-                        break
+                holds = all(fn(L) == pol for fn, pol, _ in cmps)
             except Exception:
                 holds = False
             if holds and valid_len(L):
                 bad = L
                 break
-        conds = " & ".join("%s%s %s %s" % ("" if p else "!", show(a[3], 3), a[2], show(a[4], 3)) for a, p, _ in cmps)
+        conds = " & ".join("%s%s" % ("" if p else "!", d) for _, p, d in cmps)
         ctx.ob(rule, "%s/err[%s]" % (fn_key, conds[:80]), bad is None, "%s rejects when %s: %s" % (fn_key, conds, "no admitted %s is refused" % describe if bad is None else "REFUSES the admitted %s %d" % (describe, bad)), where=where(f, b))
     return n
 
